@@ -738,6 +738,8 @@ def features(script, v):
         f.append("sampling-in-space-unrolled-form")
     if script.get("shift", "default") not in ("default", 1) or (script.get("shift", "default") == 1 and len(script["N"]) > 1):
         f.append("integer-shift-other-than-one-band-step")
+    if any(o["op"] not in ("Sgate", "Rgate", "BSgate", "Dgate", "MeasureHomodyne", "MeasureHeterodyne") for o in script["ops"]):
+        f.append("gate-the-gaussian-compiler-decomposes")
     if script["final"].get("space_unroll"):
         f.append("final-space-unroll")
     if (script["final"].get("shots") or 1) > 1:
